@@ -27,6 +27,8 @@ func init() {
 			{ID: "C13.R6", Floor: 2, Doc: "last attempt's error recorded before every retry", Run: c13r6},
 			{ID: "C13.R7", Floor: 8, Doc: "DowngradingConsistencyRetryPolicy.GetRetryType is the documented decision table (a timed-out write is never sent to another host)", Run: c13r7},
 			{ID: "C13.R8", Floor: 4, Doc: "every attempt is counted: Query.attempt / Batch.attempt add exactly 1 to the total the retry policies consult, on every path", Run: c13r8},
+			{ID: "C13.R9", Floor: 2, Doc: "the bundled retry policies grant another attempt only while Attempts() <= NumRetries", Run: c13r9},
+			{ID: "C13.R10", Floor: 1, Doc: "all executions of one query (main and speculative) draw hosts from the one NextHost obtained for it", Run: c13r10},
 		},
 	})
 }
@@ -890,5 +892,90 @@ func c13r8(p *Program, r *Report) {
 			k, isK := constInt(info, counted.Args[0])
 			r.Check(isK && k == 1, counted, name+" adds one attempt", "metrics.attempt(1, ...)", "an execution is counted as "+exprStr(counted.Args[0])+" attempts")
 		}
+	}
+}
+
+// c13r9: a policy with NumRetries allows NumRetries retries after the first execution. Attempts() counts the
+// executions made so far, so Attempt may answer true only where Attempts() <= NumRetries is known (difference-bound
+// proof from the guard facts; a result expression is assumed true first).
+func c13r9(p *Program, r *Report) {
+	n := 0
+	p.forEachFunc(false, func(fi *FuncInfo) {
+		if fi.Pkg != p.Root || fi.Decl.Recv == nil || fi.Obj == nil || fi.Obj.Name() != "Attempt" || fi.Decl.Body == nil {
+			return
+		}
+		info := fi.Pkg.TypesInfo
+		// the receiver type has a NumRetries field
+		rt := info.TypeOf(fi.Decl.Recv.List[0].Type)
+		if rt == nil || p.Field(typeNameOf(rt), "NumRetries") == nil || len(fi.Decl.Recv.List[0].Names) != 1 {
+			return
+		}
+		recv := fi.Decl.Recv.List[0].Names[0].Name
+		qp := paramObj(info, fi.Decl.Type, 0)
+		if qp == nil {
+			return
+		}
+		g := p.GraphOf(fi)
+		facts := g.GuardFacts()
+		attempts := &ast.CallExpr{Fun: &ast.SelectorExpr{X: ast.NewIdent(qp.Name()), Sel: ast.NewIdent("Attempts")}}
+		budget := &ast.SelectorExpr{X: ast.NewIdent(recv), Sel: ast.NewIdent("NumRetries")}
+		for _, e := range g.Exits() {
+			rs, ok := e.Node.(*ast.ReturnStmt)
+			if !ok || len(rs.Results) != 1 {
+				continue
+			}
+			f0, okF := facts.Before(rs)
+			if !okF {
+				continue
+			}
+			f := f0.clone()
+			if tv, isC := info.Types[rs.Results[0]]; isC && tv.Value != nil {
+				if tv.Value.String() != "true" {
+					continue
+				}
+			} else {
+				f.assume(rs.Results[0], true)
+			}
+			n++
+			d := newDBM(g, f, nil)
+			okB := d.le(exprStr(attempts), 0, exprStr(budget), 0)
+			r.Check(okB, rs, fi.Name+" grants another attempt only within the retry budget", exprStr(attempts)+" <= "+exprStr(budget)+" known where it answers true",
+				fi.Name+" can answer true although "+exprStr(attempts)+" already exceeds "+exprStr(budget)+": the query is executed more often than the policy allows (1 + NumRetries), and the error returned comes from an attempt that should not exist")
+		}
+	})
+	if n == 0 {
+		r.Unresolved("no retry policy with a NumRetries budget found")
+	}
+}
+
+// c13r10: a retry or a speculative execution goes to "the next offered host": the next element of the sequence the
+// host selection policy produced for this query. executeQuery therefore asks the policy once (one Pick per query) and
+// every execution - the main one and those started by the speculation timer - is handed that one NextHost.
+func c13r10(p *Program, r *Report) {
+	fi := r.NeedFunc("(*queryExecutor).executeQuery")
+	if fi == nil {
+		return
+	}
+	var picks []*ast.CallExpr
+	var where []*FuncInfo
+	for _, u := range p.unitsOf(fi) {
+		info := u.Pkg.TypesInfo
+		for _, c := range callsIn(u.Decl.Body) {
+			if strings.HasSuffix(calleeName(info, c), "HostSelectionPolicy.Pick") {
+				picks = append(picks, c)
+				where = append(where, u)
+			}
+		}
+	}
+	if len(picks) == 0 {
+		r.Unresolved("executeQuery never asks the host selection policy")
+		return
+	}
+	for i, c := range picks {
+		u := where[i]
+		inLoop := p.inLoop(c, u.Decl)
+		inGo := p.enclosing(c, u.Decl, func(m ast.Node) bool { _, is := m.(*ast.GoStmt); return is }) != nil
+		r.Check(len(picks) == 1 && !inLoop && !inGo, c, u.Name+" obtains one host sequence per query", "a single Pick, outside loops and go statements",
+			"the host selection policy is asked more than once for one query ("+itoa(len(picks))+" Pick call sites"+ifs(inLoop, ", one in a loop", "")+ifs(inGo, ", one in a go statement", "")+"): a speculative execution or retry then starts again at the first host of a fresh sequence instead of taking the next offered host - the slow host receives overlapping copies of the query")
 	}
 }
